@@ -272,7 +272,7 @@ def gen_fn(g, header_words, block_lines):
     sig, _ = rw.rule_R5([Tok(t.kind, t.text, t.ws, t.line) for t in item.sig])
     body, _ = rw.rule_R5([Tok(t.kind, t.text, t.ws, t.line) for t in item.body])
     shown = opts.get("as", qual)
-    if "closure" in opts or "loopbody" in opts or "blockbody" in opts:
+    if "closure" in opts or "loopbody" in opts or "blockbody" in opts or "loopstmt" in opts:
         opts["closure"] = opts["closure"].strip('"') if "closure" in opts else None
         if opts["closure"] is None:
             del opts["closure"]
@@ -325,6 +325,20 @@ def gen_fn(g, header_words, block_lines):
             c = match_close(body, o)
             inner = body[o:c + 1]
             g.rule_log.append((qual, "R7 block after `%s` lifted as `%s`" % (bb, fsig), 1))
+        elif "loopstmt" in opts:
+            # loopstmt="header text": the whole loop statement (keyword … closing brace) whose keyword sits at or after the anchor
+            lp = rw.loops(body)
+            lb = opts["loopstmt"].strip('"')
+            ms = rw.find_matches(body, lb)
+            if len(ms) != 1:
+                raise RuleMismatch("%s: loop anchor `%s` matched %d times (need 1)" % (qual, lb, len(ms)))
+            cand = [(kw, o) for (kw, o) in lp if kw >= ms[0][0]]
+            if not cand:
+                raise RuleMismatch("%s: no loop at or after anchor `%s`" % (qual, lb))
+            kw, o = cand[0]
+            c = match_close(body, o)
+            inner = lex("{") + body[kw:c + 1] + lex("}")
+            g.rule_log.append((qual, "R7 loop statement at `%s` lifted as `%s`" % (lb, fsig), 1))
         else:
             lp = rw.loops(body)
             lb = opts["loopbody"].strip('"')
